@@ -189,6 +189,46 @@ MUTANTS += [
       (M, "        let _ = self.inner.users.fetch_add(1, Ordering::Relaxed);\n        let users_guard", "        let _ = self.inner.users.fetch_add(1, Ordering::Relaxed);\n        let _ = self.inner.users.fetch_add(1, Ordering::Relaxed);\n        let users_guard")),
 ]
 
+H = 'src/managed/hooks.rs'
+MUTANTS += [
+    m('B04-1', 'recycler: pre and post hooks swapped', ['C04'], ['R04.1'],
+      (M, "if let Err(_e) = self.inner.hooks.pre_recycle.apply(inner).await {", "if let Err(_e) = self.inner.hooks.post_recycle.apply(inner).await {"),
+      (M, "if let Err(_e) = self.inner.hooks.post_recycle.apply(inner).await {\n            // TODO log post_recycle error", "if let Err(_e) = self.inner.hooks.pre_recycle.apply(inner).await {\n            // TODO log post_recycle error")),
+    m('B04-2', 'post_recycle failure ignored', ['C04'], ['R04.1'],
+      (M, "        if let Err(_e) = self.inner.hooks.post_recycle.apply(inner).await {\n            // TODO log post_recycle error\n            return Ok(None);\n        }", "        let _ = self.inner.hooks.post_recycle.apply(inner).await;")),
+    m('B04-3', 'HookVec::apply ignores sync hook errors', ['C04'], ['R04.3'],
+      (H, "Hook::Fn(f) => f(&mut inner.obj, &inner.metrics)?,", "Hook::Fn(f) => { let _ = f(&mut inner.obj, &inner.metrics); }")),
+    m('B04-4', 'hooks iterated in reverse', ['C04'], ['R04.3'],
+      (H, "for hook in &self.vec {", "for hook in self.vec.iter().rev() {")),
+    m('B04-5', 'PostCreateHook error reported as Closed', ['C04'], ['R04.5'],
+      (M, "            return Err(PoolError::PostCreateHook(e));", "            let _ = e;\n            return Err(PoolError::Closed);")),
+    m('B04-6', 'creator uses TimeoutType::Wait', ['C04', 'C10'], ['R04.1', 'R10.3'],
+      (M, "                    TimeoutType::Create,", "                    TimeoutType::Wait,")),
+    m('B04-7', 'recycle result ignored entirely', ['C04'], ['R04.1'],
+      (M, "            Ok(()) => {}\n", "            Ok(()) => {}\n            Err(PoolError::Backend(_)) => {}\n")),
+    m('B04-8', 'getter hands out a popped object directly when recycle_count is 0', ['C04'], ['R04.2'],
+      (M, "            let inner_obj = if let Some(inner_obj) = inner_obj {\n                self.try_recycle(timeouts, inner_obj).await?", "            let inner_obj = if let Some(inner_obj) = inner_obj {\n                if inner_obj.metrics.recycle_count == usize::MAX {\n                    break inner_obj;\n                }\n                self.try_recycle(timeouts, inner_obj).await?")),
+    m('B04-9', 'post_create hooks skipped', ['C04'], ['R04.1'],
+      (M, """        if let Err(e) = self
+            .inner
+            .hooks
+            .post_create
+            .apply(unready_obj.inner())
+            .await
+        {
+            return Err(PoolError::PostCreateHook(e));
+        }
+""", "")),
+    m('B04-10', 'try_acquire NoPermits mapped to Closed', ['C04'], ['R04.5'],
+      (M, "                TryAcquireError::NoPermits => PoolError::Timeout(TimeoutType::Wait),", "                TryAcquireError::NoPermits => PoolError::Closed,")),
+    m('B04-11', 'HookVec::push inserts at the front', ['C04'], ['R04.3'],
+      (H, "        self.vec.push(hook);", "        self.vec.insert(0, hook);")),
+    m('B04-12', 'builder: pre_recycle() registers into post_recycle', ['C04'], ['binding', 'R04.1'],
+      ('src/managed/builder.rs', "        self.hooks.pre_recycle.push(hook.into());", "        self.hooks.post_recycle.push(hook.into());")),
+    m('B04-13', 'recycle timeout uses the pool-level instead of the per-call value', ['C04', 'C10'], ['R04.1', 'R10.3'],
+      (M, "            timeouts.recycle,\n            self.inner.manager.recycle", "            self.inner.config.timeouts.create,\n            self.inner.manager.recycle")),
+]
+
 BENIGN = [
     m('N01-1', 'return_object: max_size >= size', ['C01'], [],
       (M, "        if slots.size <= slots.max_size {\n            slots.vec.push_back(inner);", "        if slots.max_size >= slots.size {\n            slots.vec.push_back(inner);")),
